@@ -11,13 +11,13 @@ PROTO_SCENARIOS = [
     ("payload", ["future_poll", "future_await", "future_compete", "shared"]),
     ("awaiter node via future", ["future_await", "future_compete"]),
     ("awaiter node via signal", ["signal"]),
-    ("mutex", ["mutex"]),
+    ("mutex", ["mutex", "mutex_window"]),
     ("reusable_storage_mtsafe", ["storage"]),
     ("generator", ["generator"]),
 ]
 CLASS_SCENARIOS = {"queue": ["queue", "generator"], "limited_queue": ["queue"], "thread_pool": ["pool"],
                    "scheduler": ["scheduler"], "publisher::queue": ["publisher"]}
-ALL_SCENARIOS = ["future_poll", "future_await", "future_compete", "mutex", "queue", "pool", "scheduler", "publisher",
+ALL_SCENARIOS = ["future_poll", "future_await", "future_compete", "mutex", "mutex_window", "queue", "pool", "scheduler", "publisher",
                  "storage", "generator", "signal", "shared"]
 
 
@@ -101,6 +101,7 @@ class C03(Spec):
     def table_obligations(self):
         return ["c03_current_orders", "c03_no_consume", "c03_lock_tables", "c03_lock_tables_cover", "c03_mutex_no_touch_after_publish",
                 "c03_walk_reads_next_before_resume", "c03_unlock_unlinks_before_resume", "c03_final_resolve_before_destroy",
+                "c03_build_queue_acquires_before_queue",
                 "c03_awaiter_no_touch_after_publish", "c03_sites_accounted", "c03_rmw_shapes", "c03_tracer_ref_before_publish"]
 
     def prebuild(self):
@@ -177,6 +178,8 @@ class C03(Spec):
             found += self._baton_search("c07")
         if broken & {"c03_walk_reads_next_before_resume", "c03_final_resolve_before_destroy", "c03_awaiter_no_touch_after_publish"}:
             found += self._baton_search("c02")
+        if "c03_build_queue_acquires_before_queue" in broken:
+            scenarios += ["mutex_window", "mutex"]
         if "c03_tracer_ref_before_publish" in broken:
             try:
                 found += self._baton_search("c17")
